@@ -121,7 +121,12 @@ def rule_MO1(rep, prog, q, ex):
             for role, need in roles:
                 if (t.origin, role) in DQ_ORDER_EXCEPTIONS or (t.fn.name, role) in DQ_ORDER_EXCEPTIONS:
                     continue
-                rep.require(r2, has(t.order, need), t.where, t.origin, "dq_state-order:%s:%s" % (role, t.origin),
+                if role in ("unlock", "acquire") and not has(t.order, need):
+                    # structural form of the "current holder" exception: the same function already published with a release RMW on dq_state that
+                    # dominates this site (it gave IN_BARRIER back and keeps draining as the holder); no client code runs in between
+                    if any(i.op == "atomicrmw" and (prog.fields(i) & DQ_STATE) and ord_has_release(i.d.get("ord", "")) and fn.dominates(i, t.site) for i in fn.all_insts()):
+                        continue
+                rep.classified(r2, t.origin, has(t.order, need), t.where, t.origin, "dq_state-order:%s:%s" % (role, t.origin),
                             "dq_state %s in %s (%s) is '%s' but needs %s" % (role, t.origin, t.kind, t.order, need),
                             sample={"site": t.origin, "role": role, "order": t.order})
     # give-up clear of DIRTY must be acquire (covered by C01-TR1) ; xor DIRTY sites:
